@@ -15,11 +15,14 @@ RequiredOpts == {{}, {T("CALLER", 0, 0)}, {T("CALLER", 1, 2)}, {T("OTHER", 0, 0)
 CalledOpts == {T("ACCEPTOR", 0, 0), T("ACCEPTOR", 1, 2), T("acceptor", 0, 0), T("ANY", 0, 0)}
 OwnOpts == {T("ACCEPTOR", 0, 0), T("ACCEPTOR", 0, 3)}
 \* identity: the request carries no identity item / carries one and no handler is bound / the handler says yes, no, raises
-IdentityOpts == {"none", "unbound", "true", "false", "raise"}
+\* "falsy": the handler's verdict is None (not a positive verdict)
+IdentityOpts == {"none", "unbound", "true", "false", "falsy", "raise"}
+\* how the application configured the required-calling list: by assignment, or by mutating the list it got back
+HowOpts == {"assign", "inplace"}
 
 VARIABLES c, phase, outcome, handlerCalls
 vars == <<c, phase, outcome, handlerCalls>>
-Init == /\ c \in [calling : CallingOpts, required : RequiredOpts, called : CalledOpts, own : OwnOpts, requireCalled : BOOLEAN, identity : IdentityOpts]
+Init == /\ c \in [calling : CallingOpts, required : RequiredOpts, called : CalledOpts, own : OwnOpts, requireCalled : BOOLEAN, identity : IdentityOpts, how : HowOpts]
         /\ phase = "rq" /\ outcome = "none" /\ handlerCalls = 0
 
 \* ---- the policy (shared with Trace_Policy) ----
